@@ -117,12 +117,21 @@ func (c *Ctx) requestProtocol() {
 	var regCall, sendCall ssa.Instruction
 	var unregDeferred bool
 	var regResult ssa.Value
+	regFn := req // the function that holds the registration (Request itself when it is written in place)
 	allInstrs(req, func(_ *ssa.BasicBlock, i ssa.Instruction) {
 		switch x := i.(type) {
+		case *ssa.MapUpdate:
+			// the registration written in place: queries[id] = ch
+			if ld, ok := x.Map.(*ssa.UnOp); ok && regCall == nil {
+				if of, ok := ownerField(ld.X); ok && of == qField {
+					regCall, regResult = x, x.Value
+				}
+			}
 		case *ssa.Call:
 			if sc := x.Call.StaticCallee(); sc != nil {
 				if inserts(sc) && regCall == nil {
 					regCall, regResult = x, x
+					regFn = sc
 				}
 				if callQName(&x.Call) == modPath+"/liteclient.Connection.Send" {
 					sendCall = x
@@ -140,7 +149,7 @@ func (c *Ctx) requestProtocol() {
 	// reply channel made with capacity >= 1 in the registering function
 	capOK := false
 	if regCall != nil {
-		sc := regCall.(*ssa.Call).Call.StaticCallee()
+		sc := regFn
 		allInstrs(sc, func(_ *ssa.BasicBlock, i ssa.Instruction) {
 			if mk, ok := i.(*ssa.MakeChan); ok {
 				if k, ok := constInt(mk.Size); ok && k >= 1 {
@@ -660,8 +669,18 @@ func (c *Ctx) queryFraming() {
 			allInstrs(f, func(_ *ssa.BasicBlock, in ssa.Instruction) {
 				switch x := in.(type) {
 				case *ssa.BinOp:
-					if k, ok := constInt(x.Y); ok {
-						switch x.Op {
+					k, ok := constInt(x.Y)
+					op := x.Op
+					if !ok {
+						// the constant on the left: 254 > i is i < 254
+						if kk, okX := constInt(x.X); okX {
+							if f2, isCmp := map[token.Token]token.Token{token.LSS: token.GTR, token.GTR: token.LSS, token.LEQ: token.GEQ, token.GEQ: token.LEQ}[op]; isCmp {
+								k, ok, op = kk, true, f2
+							}
+						}
+					}
+					if ok {
+						switch op {
 						case token.GEQ, token.LSS:
 							if k >= 200 {
 								thr = k
